@@ -115,7 +115,19 @@ func (k *chk15) evalParsed(t target, q *contactql.ContactQuery, text string) (re
 		if rec := recover(); rec != nil {
 			st := string(debug.Stack())
 			k.res.Count("eval.panics", 1)
-			k.res.Violate(fw.PanicSignature("EvaluateQuery", rec, st), fmt.Sprintf("EvaluateQuery panicked on %s: %v", trunc(text, 160), rec),
+			sig := fw.PanicSignature("EvaluateQuery", rec, st)
+			// the evaluator's own "can't query <type> fields with <operator>" panics: the validator admitted
+			// an operator for a property type the evaluator has no comparison for
+			if msg := fmt.Sprint(rec); strings.HasPrefix(msg, "can't query ") {
+				typ := "text"
+				if strings.Contains(msg, "number fields") {
+					typ = "number"
+				} else if strings.Contains(msg, "date fields") {
+					typ = "date"
+				}
+				sig = "panic|EvaluateQuery|operator-admitted-by-validator-has-no-" + typ + "-comparison"
+			}
+			k.res.Violate(sig, fmt.Sprintf("EvaluateQuery panicked on %s: %v", trunc(text, 160), rec),
 				map[string]any{"query": text, "target": t.name, "env": k.spec.String(), "contact": k.model, "panic": fmt.Sprint(rec), "stack": fw.TrimStack(st)})
 			result, ok = false, false
 		}
